@@ -2,7 +2,7 @@
    Model: Base/AffOps.v (operations as coded in /repo/src/linalg/affine.rs and impl_ops.rs; None = Rust panics).
    All statements hold for every dimension (0 included), every matrix/bias and every input x : list Qc. *)
 From Coq Require Import Sorted.
-From AT Require Import Num Vec Aff Poly AffOps.
+From AT Require Import Num Vec Aff Poly AffOps AffOps2.
 
 (* ---- compose, stack ---- *)
 Theorem C16_compose : forall f g x, wf_aff f -> wf_aff g -> a_in f = outdim g ->
@@ -177,3 +177,47 @@ Print Assumptions C16_translation.
 Print Assumptions C16_translation_refuted.
 Print Assumptions C16_subtraction_refuted.
 Print Assumptions C16_remove_zero_columns_refuted.
+
+(* ---- apply_transpose, reset_row (Base/AffOps2.v) ---- *)
+(* apply_transpose(y) = M^T (y - b): characterised by <z, x> = <y - b, M x> for every x ... *)
+Theorem C16_apply_transpose_adjoint : forall f y x, wf_aff f -> length y = outdim f ->
+  exists z, apply_transpose_rs f y = Some z /\ length z = a_in f /\
+            dot z x = dot (vsub y (a_bias f)) (matvec (a_mat f) x).
+Proof. exact apply_transpose_adjoint. Qed.
+(* ... which determines it *)
+Theorem C16_apply_transpose_unique : forall f y z z', wf_aff f -> length y = outdim f ->
+  apply_transpose_rs f y = Some z -> length z' = a_in f ->
+  (forall x, length x = a_in f -> dot z' x = dot (vsub y (a_bias f)) (matvec (a_mat f) x)) -> z' = z.
+Proof. exact apply_transpose_unique. Qed.
+(* "for orthogonal functions this corresponds to the inverse" *)
+Theorem C16_apply_transpose_inverse : forall f x, wf_aff f -> length x = a_in f ->
+  (forall u v, length u = a_in f -> length v = a_in f ->
+               dot (matvec (a_mat f) u) (matvec (a_mat f) v) = dot u v) ->
+  apply_transpose_rs f (apply f x) = Some x.
+Proof. exact apply_transpose_inverse. Qed.
+(* ndarray's shape rule for `input - &bias`: a 1-entry input is broadcast, everything else of the wrong length panics *)
+Theorem C16_apply_transpose_guard : forall f y, length y <> length (a_bias f) -> length y <> 1%nat ->
+  apply_transpose_rs f y = None.
+Proof. exact apply_transpose_panics. Qed.
+Theorem C16_apply_transpose_broadcast : forall f c, length (a_bias f) <> 1%nat ->
+  apply_transpose_rs f [c] = apply_transpose_rs f (repeat c (length (a_bias f))).
+Proof. exact apply_transpose_broadcast. Qed.
+Theorem C16_reset_row : forall f i x, wf_aff f -> (i < outdim f)%nat ->
+  exists g, reset_row_rs f i = Some g /\ wf_aff g /\ a_in g = a_in f /\ apply g x = vset (apply f x) i 0.
+Proof. exact reset_row_apply. Qed.
+Theorem C16_reset_row_guard : forall f i, (outdim f <= i)%nat -> reset_row_rs f i = None.
+Proof. exact reset_row_panics. Qed.
+(* non-vacuity: a rotation by 90 degrees with an offset, undone by apply_transpose *)
+Example C16_apply_transpose_nonvacuous :
+  let f := mk 2 [[0; - (1)]; [1; 0]] [qz 3; qz 5] in
+  wf_aff f /\ apply f [qz 2; qz 7] = [qz (-4); qz 7] /\ apply_transpose_rs f [qz (-4); qz 7] = Some [qz 2; qz 7].
+Proof. split; [split; [repeat constructor | reflexivity] | split; vm_compute; reflexivity]. Qed.
+
+Print Assumptions C16_apply_transpose_adjoint.
+Print Assumptions C16_apply_transpose_unique.
+Print Assumptions C16_apply_transpose_inverse.
+Print Assumptions C16_apply_transpose_guard.
+Print Assumptions C16_apply_transpose_broadcast.
+Print Assumptions C16_reset_row.
+Print Assumptions C16_reset_row_guard.
+Print Assumptions C16_apply_transpose_nonvacuous.
